@@ -17,7 +17,7 @@ RULE = ("cases from rng(seed, 16, 0, i): 4 of 5 cases evaluate BaseEdge.calc_jac
         "generic rotations, a fifth of them with a bit-exactly zero residual; vertices sometimes flagged fixed; a fifth of the custom edges configure their own step 1e-5..1e-8 (the bound then uses that step); sometimes after an unrelated differentiation was aborted by an exception inside its error function) and on built-in odometry/landmark edges; 1 of 5 optimizes a cluster graph whose custom edges use numerical Jacobians and its AD twin "
         "(tol=1e-12, max_iter=50) inside the C05 neighbourhood. distinct = fingerprint of the edge operands / spec; non-trivial = Jacobian with a non-zero rotational block "
         "or twin graphs that moved by > 1e-6.")
-REQ = ["eval:numerical-jacobian-accuracy", "eval:twin-optimum-agrees", "eval:twin-chi2-agrees"] + ["family:" + n for n in custom.TYPES if n not in ("faulty", "robustprior")] + ["family:builtin-odometry", "family:builtin-landmark",
+REQ = ["eval:returned-jacobians-stay-valid", "eval:numerical-jacobian-accuracy", "eval:twin-optimum-agrees", "eval:twin-chi2-agrees"] + ["family:" + n for n in custom.TYPES if n not in ("faulty", "robustprior")] + ["family:builtin-odometry", "family:builtin-landmark",
                                                                                                                           "class:ternary", "class:unary", "kind:se3", "kind:se2", "class:exactly_zero_residual", "class:aliased_pose_objects", "class:evaluated_again_after_edits", "class:fixed_vertex", "class:edge_configures_its_own_step", "class:earlier_differentiation_aborted_by_edge_fault"]
 PLAN = {
     "quick": {"cases": 2500, "soft_s": 80, "min_nontrivial": 600, "require": REQ},
@@ -100,7 +100,7 @@ def jacobian_check(ctx, e, fam, case):
         ctx.check("numerical-jacobian-accuracy", False, {"family": fam, "why": "one Jacobian per vertex"}, None, case)
         return
     e0 = np.array(R.vals(f(P)))
-    H = float(getattr(e, "_NUMERICAL_DIFFERENTIATION_EPSILON", 1e-6))
+    H = float(getattr(e, "_vf_step", 1e-6))  # the documented step, unless the harness itself configured another one on this edge
     for i, k in enumerate(ks):
         J = np.asarray(Jnum[i], dtype=float)
         c = R.CD[k]
@@ -132,6 +132,67 @@ def jacobian_check(ctx, e, fam, case):
             ctx.margin("numerical-jacobian-accuracy", float((diff / bound).max()))
         ctx.check("numerical-jacobian-accuracy", bool(np.all(diff <= bound)), {"family": fam, "kind": k, "vertex": i, "n_vertices": len(ks)},
                   {"J_num": J, "J_true": Jt, "FD_ref": FDs, "worst": float((diff - bound).max())}, case)
+
+
+def ideal_fd_error(e):
+    """Per vertex: |FD_ref - J_true| (ideal forward difference of the reference error with the edge's step, through the reference boxplus) plus the
+    round-off term of jacobian_check - what a correct numerical Jacobian may be off by.  None outside the smooth domain."""
+    if not O.edge_in_domain(e):
+        return None
+    ks = M.edge_kinds(e)
+    P = [M.fl(v.pose) for v in e.vertices]
+    f = M.edge_ref_fn(e)
+    ref_err, Jtrue = M.edge_ref_jacobians(e)
+    if not smooth_domain(e, ref_err):
+        return None
+    h = float(getattr(e, "_vf_step", 1e-6))
+    s = max([O.edge_scale(e)] + [R.tmag(kk, pp) for kk, pp in zip(ks, P)])
+    e0 = np.array(R.vals(f(P)))
+    out = []
+    for i, k in enumerate(ks):
+        c = R.CD[k]
+        FD = np.zeros_like(Jtrue[i])
+        for d in range(c):
+            dv = [0.0] * c
+            dv[d] = h
+            Q = list(P)
+            Q[i] = R.vals(R.box(k, P[i], dv))
+            FD[:, d] = (np.array(R.vals(f(Q))) - e0) / h
+        out.append(1.5 * np.abs(FD - Jtrue[i]) + 64 * (R.EPS / h) * (float(np.abs(ref_err).max()) + s))
+    return out
+
+
+def optimum_shift_bound(g_exact):
+    """How far the fixed point of Gauss-Newton with *numerical* Jacobians may sit from the true optimum: it solves J_num^T Omega e = 0 instead of
+    J^T Omega e = 0, i.e. the true gradient there is (J - J_num)^T Omega e; one Newton step with the reference Hessian turns that into a distance.
+    Evaluated at the exact twin's optimum.  Returns a float (inf when it cannot be evaluated)."""
+    try:
+        H, b, chi_ref, idx, nn = M.assemble(g_exact, "ref")
+    except Exception:
+        return math.inf
+    gamma = np.zeros(nn)
+    for e in g_exact._edges:
+        if not isinstance(e, custom._Custom):
+            continue
+        dJ = ideal_fd_error(e)
+        if dJ is None:
+            return math.inf
+        with np.errstate(all="ignore"):
+            w = np.abs(np.asarray(e.information, dtype=float)) @ np.abs(np.atleast_1d(np.asarray(e.calc_error(), dtype=float)))
+        for v, D in zip(e.vertices, dJ):
+            i0 = idx[id(v)]
+            gamma[i0:i0 + D.shape[1]] += D.T @ w
+    free = M.free_mask(g_exact, nn, idx)
+    if not free.any():
+        return 0.0
+    Hf = H[np.ix_(free, free)]
+    try:
+        ev = np.linalg.eigvalsh((Hf + Hf.T) / 2)
+    except Exception:
+        return math.inf
+    if not (ev.min() > 0):
+        return math.inf
+    return float(np.linalg.norm(gamma[free]) / ev.min())
 
 
 def direct_case(ctx, i, rng):
@@ -214,6 +275,7 @@ def direct_case(ctx, i, rng):
         else:
             e.__class__ = type("Stepped" + type(e).__name__, (type(e),), {"_NUMERICAL_DIFFERENTIATION_EPSILON": h})
         case["step"] = h
+        e._vf_step = h
         ctx.count("class:edge_configures_its_own_step")
     if rng.random() < 0.15:
         # history: an earlier numerical differentiation of an unrelated edge was aborted by an exception raised inside its error function
@@ -227,6 +289,20 @@ def direct_case(ctx, i, rng):
             ctx.count("class:earlier_differentiation_aborted_by_edge_fault")
         case["earlier_fault"] = {"kind": kk, "fail_at": fe.fail_at}
     jacobian_check(ctx, e, fam, case)
+    if i % 4 == 0 and not fam.startswith("builtin"):
+        # a client that collects the numerical Jacobians of several edges before using them (a composite edge stacking inner edges, its own solver):
+        # what one call returned must not change when other edges are differentiated afterwards
+        try:
+            with np.errstate(all="ignore"):
+                held = M.BaseEdge.calc_jacobians(e)
+                saved = [np.array(J, dtype=float, copy=True) for J in held]
+                for _ in range(2):
+                    e2, _s2, _p2, _k2 = make_custom_edge(rng, fam, k, scale)
+                    M.BaseEdge.calc_jacobians(e2)
+            same = len(held) == len(saved) and all(np.array_equal(np.asarray(a), b, equal_nan=True) for a, b in zip(held, saved))
+            ctx.check("returned-jacobians-stay-valid", same, {"family": fam, "kind": k}, {"note": "arrays returned by the numerical calc_jacobians changed after other edges were differentiated"}, case)
+        except Skip:
+            pass
     ctx.count("family:" + fam)
     ctx.count("kind:" + k)
     if len(e.vertices) == 3:
@@ -272,8 +348,13 @@ def twin_case(ctx, i, rng):
         d0 = M.pose_distance(kk, q, M.fl(M.mkpose(kk, v0["pose"])))
         moved = max(moved, d0[0], d0[1])
     fams = sorted({e["type"] for e in spec["edges"] if e["type"].startswith("custom:")})
-    ctx.margin("twin-optimum-agrees", worst / 1e-4)
-    ctx.check("twin-optimum-agrees", worst <= 1e-4, {"families": "+".join(fams)}, {"worst": worst, "iterations": [r1.num_iterations, r2.num_iterations], "chi2": [r1.final_chi2, r2.final_chi2]}, case)
+    # 1e-4 (relative to the scene) covers well-conditioned graphs; where weak information or large residuals make the optimum sensitive, the allowance is
+    # what the accuracy of a correct forward difference implies (see optimum_shift_bound), never more than 1e-2
+    shift = optimum_shift_bound(gt)
+    tol_opt = max(1e-4, min(4.0 * shift / scene, 1e-2)) if math.isfinite(shift) else 1e-4
+    ctx.margin("twin-optimum-agrees", worst / tol_opt)
+    ctx.check("twin-optimum-agrees", worst <= tol_opt, {"families": "+".join(fams)}, {"worst": worst, "tol": tol_opt, "shift_bound": shift, "iterations": [r1.num_iterations, r2.num_iterations],
+                                                                               "chi2": [r1.final_chi2, r2.final_chi2]}, case)
     c1, c2 = r1.final_chi2, r2.final_chi2
     # chi2 is stationary at the optimum: chi2(x* + d) = chi2* + d^T H d + o(|d|^2) with H = sum J^T Omega J, so the two final chi2 values may differ
     # by the second-order term of the (separately bounded) pose difference d, measured here with the reference Hessian
